@@ -36,27 +36,29 @@ Qed.
 
 (* ---------------------------------------------------------------- one product *)
 
-Lemma destroy_inv c a0 n v ps removed st r st' :
-  destroy c a0 ((n, Some v, true) :: ps) removed st = (r, st') ->
+Lemma destroy_inv keep c a0 n v ps removed st r st' :
+  destroy keep c a0 ((n, Some v, true) :: ps) removed st = (r, st') ->
   (find_exact (rdb st) (apath (rdb st)) n v (rc_flavor c) = None /\ r = Err NotFound /\ st' = st) \/
   (exists s rr, find_exact (rdb st) (apath (rdb st)) n v (rc_flavor c) = Some (s, rr) /\
      let a' := aapply (ADelDecl s n v (rc_flavor c)) (rdb st) in
-     ((exists e, dir_step c a0 (n, Some v, true) removed (rfs st) = Err e /\ r = Err e /\ st' = mkR a' (rfs st)) \/
-      (exists removed' fs', dir_step c a0 (n, Some v, true) removed (rfs st) = Ok (removed', fs') /\
-                            destroy c a0 ps removed' (mkR a' fs') = (r, st')))).
+     ((exists e, dir_step keep c a0 a' (n, Some v, true) removed (rfs st) = Err e /\ r = Err e /\ st' = mkR a' (rfs st)) \/
+      (exists removed' fs', dir_step keep c a0 a' (n, Some v, true) removed (rfs st) = Ok (removed', fs') /\
+                            destroy keep c a0 ps removed' (mkR a' fs') = (r, st')))).
 Proof.
   cbn [destroy]. unfold nname, nver. cbn [fst snd]. rewrite undeclare_some.
   destruct (find_exact (rdb st) (apath (rdb st)) n v (rc_flavor c)) as [[s rr]|] eqn:F.
   - intro H. right. exists s, rr. split; [reflexivity|]. cbv zeta.
-    destruct (dir_step c a0 (n, Some v, true) removed (rfs st)) as [[removed' fs']|e] eqn:D.
+    destruct (dir_step keep c a0 (aapply (ADelDecl s n v (rc_flavor c)) (rdb st)) (n, Some v, true) removed (rfs st)) as [[removed' fs']|e] eqn:D.
     + right. exists removed', fs'. split; [reflexivity|exact H].
     + left. exists e. inversion H. auto.
   - intro H. left. inversion H. auto.
 Qed.
 
-Lemma dir_step_cases c a0 p removed fs removed' fs' :
-  dir_step c a0 p removed fs = Ok (removed', fs') ->
-  (removed' = removed /\ fs' = fs /\ In (product_dir c a0 p) removed) \/
+Lemma dir_step_cases keep c a0 a1 p removed fs removed' fs' :
+  dir_step keep c a0 a1 p removed fs = Ok (removed', fs') ->
+  (removed' = removed /\ fs' = fs /\
+     (In (product_dir c a0 p) removed \/
+      (keep = true /\ exists dir, product_dir c a0 p = Some dir /\ placeholder dir = false /\ in_use c a1 dir = true))) \/
   (removed' = product_dir c a0 p :: removed /\ fs' = fs /\
      (product_dir c a0 p = None \/ exists dir, product_dir c a0 p = Some dir /\ placeholder dir = true)) \/
   (exists dir, product_dir c a0 p = Some dir /\ placeholder dir = false /\ In dir fs /\
@@ -67,64 +69,68 @@ Proof.
   - apply mem_odir_not_In in M. destruct (product_dir c a0 p) as [dir|] eqn:P.
     + destruct (placeholder dir) eqn:Ph.
       * intro H. inversion H. subst. right. left. split; [reflexivity|]. split; [reflexivity|]. right. eauto.
-      * destruct (mem_str dir fs) eqn:I; [|discriminate]. intro H. inversion H. subst.
+      * destruct (keep && in_use c a1 dir) eqn:KU.
+        { intro H. inversion H. subst. apply andb_true_iff in KU as [K1 K2]. left. split; [reflexivity|]. split; [reflexivity|].
+          right. split; [exact K1|]. exists dir. auto. }
+        destruct (mem_str dir fs) eqn:I; [|discriminate]. intro H. inversion H. subst.
         right. right. exists dir. apply mem_str_In in I. auto 10.
     + intro H. inversion H. subst. right. left. auto.
 Qed.
 
-Lemma dir_step_fs_sub c a0 p removed fs removed' fs' x :
-  dir_step c a0 p removed fs = Ok (removed', fs') -> In x fs' -> In x fs.
+Lemma dir_step_fs_sub keep c a0 a1 p removed fs removed' fs' x :
+  dir_step keep c a0 a1 p removed fs = Ok (removed', fs') -> In x fs' -> In x fs.
 Proof.
-  intro H. destruct (dir_step_cases _ _ _ _ _ _ _ H) as [[_ [-> _]]|[[_ [-> _]]|[dir [_ [_ [_ [_ [_ ->]]]]]]]]; auto.
+  intro H. destruct (dir_step_cases _ _ _ _ _ _ _ _ _ H) as [[_ [-> _]]|[[_ [-> _]]|[dir [_ [_ [_ [_ [_ ->]]]]]]]]; auto.
   intro I. apply rmtree_In in I. tauto.
 Qed.
 
-Lemma dir_step_fs_keep c a0 p removed fs removed' fs' x :
-  dir_step c a0 p removed fs = Ok (removed', fs') -> In x fs ->
+Lemma dir_step_fs_keep keep c a0 a1 p removed fs removed' fs' x :
+  dir_step keep c a0 a1 p removed fs = Ok (removed', fs') -> In x fs ->
   (forall dir, product_dir c a0 p = Some dir -> placeholder dir = false -> under dir x = false) -> In x fs'.
 Proof.
-  intros H I K. destruct (dir_step_cases _ _ _ _ _ _ _ H) as [[_ [-> _]]|[[_ [-> _]]|[dir [P [Ph [_ [_ [_ ->]]]]]]]]; auto.
+  intros H I K. destruct (dir_step_cases _ _ _ _ _ _ _ _ _ H) as [[_ [-> _]]|[[_ [-> _]]|[dir [P [Ph [_ [_ [_ ->]]]]]]]]; auto.
   apply rmtree_In. split; [exact I|]. apply (K dir P Ph).
 Qed.
 
-Lemma dir_step_removed_mono c a0 p removed fs removed' fs' d :
-  dir_step c a0 p removed fs = Ok (removed', fs') -> In d removed -> In d removed'.
+Lemma dir_step_removed_mono keep c a0 a1 p removed fs removed' fs' d :
+  dir_step keep c a0 a1 p removed fs = Ok (removed', fs') -> In d removed -> In d removed'.
 Proof.
-  intros H I. destruct (dir_step_cases _ _ _ _ _ _ _ H) as [[-> _]|[[-> _]|[dir [_ [_ [_ [_ [-> _]]]]]]]]; auto; right; exact I.
+  intros H I. destruct (dir_step_cases _ _ _ _ _ _ _ _ _ H) as [[-> _]|[[-> _]|[dir [_ [_ [_ [_ [-> _]]]]]]]]; auto; right; exact I.
 Qed.
 
 (* what has been noted as removed really is not there any more *)
 Definition fs_inv (removed : list (option str)) (fs : list str) : Prop :=
   forall d, In (Some d) removed -> placeholder d = false -> forall x, under d x = true -> ~ In x fs.
 
-Lemma dir_step_inv c a0 p removed fs removed' fs' :
-  fs_inv removed fs -> dir_step c a0 p removed fs = Ok (removed', fs') ->
+Lemma dir_step_inv keep c a0 a1 p removed fs removed' fs' :
+  fs_inv removed fs -> dir_step keep c a0 a1 p removed fs = Ok (removed', fs') ->
   fs_inv removed' fs' /\
-  (forall dir, product_dir c a0 p = Some dir -> placeholder dir = false ->
+  (keep = false -> forall dir, product_dir c a0 p = Some dir -> placeholder dir = false ->
                forall x, under dir x = true -> ~ In x fs').
 Proof.
-  intros Inv H. destruct (dir_step_cases _ _ _ _ _ _ _ H) as [[-> [-> I]]|[[-> [-> K]]|[dir [P [Ph [I [N [-> ->]]]]]]]].
-  - split; [exact Inv|]. intros dir P Ph x U. rewrite P in I. apply (Inv dir I Ph x U).
+  intros Inv H. destruct (dir_step_cases _ _ _ _ _ _ _ _ _ H) as [[-> [-> I]]|[[-> [-> K]]|[dir [P [Ph [I [N [-> ->]]]]]]]].
+  - split; [exact Inv|]. intros Hk dir P Ph x U. destruct I as [I|[K _]]; [|congruence]. rewrite P in I. apply (Inv dir I Ph x U).
   - split.
     + intros d [E|I] Ph x U; [|apply (Inv d I Ph x U)].
       destruct K as [K|[dir [K1 K2]]]; [rewrite K in E; discriminate|].
       rewrite K1 in E. inversion E. subst. congruence.
-    + intros dir P Ph. destruct K as [K|[dir' [K1 K2]]]; [rewrite K in P; discriminate|].
+    + intros _ dir P Ph. destruct K as [K|[dir' [K1 K2]]]; [rewrite K in P; discriminate|].
       rewrite K1 in P. inversion P. subst. congruence.
   - split.
     + intros d [E|I'] Ph' x U J; apply rmtree_In in J as [J1 J2].
       * inversion E. subst. congruence.
       * apply (Inv d I' Ph' x U J1).
-    + intros dir' P' _ x U J. rewrite P in P'. inversion P'. subst. apply rmtree_In in J as [_ J]. congruence.
+    + intros _ dir' P' _ x U J. rewrite P in P'. inversion P'. subst. apply rmtree_In in J as [_ J]. congruence.
 Qed.
 
-Lemma dir_step_total c a0 p removed fs :
+Lemma dir_step_total keep c a0 a1 p removed fs :
   (forall dir, product_dir c a0 p = Some dir -> placeholder dir = false -> In (Some dir) removed \/ In dir fs) ->
-  exists removed' fs', dir_step c a0 p removed fs = Ok (removed', fs').
+  exists removed' fs', dir_step keep c a0 a1 p removed fs = Ok (removed', fs').
 Proof.
   intro H. unfold dir_step. destruct (mem_odir (product_dir c a0 p) removed) eqn:M; [eauto|].
   destruct (product_dir c a0 p) as [dir|] eqn:P; [|eauto].
   destruct (placeholder dir) eqn:Ph; [eauto|].
+  destruct (keep && in_use c a1 dir); [eauto|].
   destruct (H dir eq_refl Ph) as [I|I].
   - apply mem_odir_not_In in M. contradiction.
   - apply mem_str_In in I. rewrite I. eauto.
@@ -133,14 +139,14 @@ Qed.
 (* ---------------------------------------------------------------- declarations *)
 
 (* whatever the outcome, a declaration that is not one of those being removed is as before *)
-Lemma destroy_decl_frame c a0 : forall ps removed st r st',
-  destroy c a0 ps removed st = (r, st') -> NoDup ps -> all_real ps ->
+Lemma destroy_decl_frame keep c a0 : forall ps removed st r st',
+  destroy keep c a0 ps removed st = (r, st') -> NoDup ps -> all_real ps ->
   forall s n v f', ~ gone c (rdb st) ps s n v f' -> a_decl (rdb st') s n v f' = a_decl (rdb st) s n v f'.
 Proof.
   induction ps as [|p ps IH]; intros removed st r st' H ND AR s n v f' NG.
   - cbn in H. inversion H. reflexivity.
   - destruct (AR p (or_introl eq_refl)) as [n1 [v1 ->]]. inversion ND as [|? ? Hnotin ND']. subst.
-    destruct (destroy_inv _ _ _ _ _ _ _ _ _ H) as [[_ [_ ->]]|[s1 [rr [F [[e [_ [_ ->]]]|[removed' [fs' [_ Hrec]]]]]]]]; [reflexivity| |].
+    destruct (destroy_inv _ _ _ _ _ _ _ _ _ _ H) as [[_ [_ ->]]|[s1 [rr [F [[e [_ [_ ->]]]|[removed' [fs' [_ Hrec]]]]]]]]; [reflexivity| |].
     + cbn [rdb]. rewrite a_decl_aapply.
       destruct (dkey_eqb (s, n, v, f') (s1, n1, v1, rc_flavor c)) eqn:E; [|rewrite andb_false_r; reflexivity].
       apply dkey_eqb_eq in E. inversion E. subst. exfalso. apply NG. split; [reflexivity|]. split; [left; reflexivity|].
@@ -160,18 +166,18 @@ Lemma find_home c a n v s rr : find_exact a (apath a) n v (rc_flavor c) = Some (
 Proof. intro F. unfold home. rewrite F. reflexivity. Qed.
 
 (* when the run completes, every declaration it was to remove is gone *)
-Lemma destroy_decl_gone c a0 : forall ps removed st st',
-  destroy c a0 ps removed st = (Ok tt, st') -> NoDup ps -> all_real ps ->
+Lemma destroy_decl_gone keep c a0 : forall ps removed st st',
+  destroy keep c a0 ps removed st = (Ok tt, st') -> NoDup ps -> all_real ps ->
   forall s n v f', gone c (rdb st) ps s n v f' -> a_decl (rdb st') s n v f' = None.
 Proof.
   induction ps as [|p ps IH]; intros removed st st' H ND AR s n v f' G.
   - destruct G as [_ [[] _]].
   - destruct (AR p (or_introl eq_refl)) as [n1 [v1 ->]]. inversion ND as [|? ? Hnotin ND']. subst.
-    destruct (destroy_inv _ _ _ _ _ _ _ _ _ H) as [[_ [E _]]|[s1 [rr [F [[e [_ [E _]]]|[removed' [fs' [_ Hrec]]]]]]]];
+    destruct (destroy_inv _ _ _ _ _ _ _ _ _ _ H) as [[_ [E _]]|[s1 [rr [F [[e [_ [E _]]]|[removed' [fs' [_ Hrec]]]]]]]];
       [discriminate|discriminate|].
     destruct (pair_eq_dec n v n1 v1) as [E|N].
     + inversion E. subst n1 v1. destruct G as [Hf [_ Hh]]. rewrite (find_home _ _ _ _ _ _ F) in Hh. inversion Hh. subst s1 f'.
-      rewrite (destroy_decl_frame _ _ _ _ _ _ _ Hrec ND' (all_real_tail _ _ AR)).
+      rewrite (destroy_decl_frame _ _ _ _ _ _ _ _ Hrec ND' (all_real_tail _ _ AR)).
       * cbn [rdb]. rewrite a_decl_aapply, dkey_eqb_refl, andb_true_r.
         rewrite (home_gives_decl _ _ _ _ _ (find_home _ _ _ _ _ _ F)). reflexivity.
       * intros [_ [I _]]. contradiction.
@@ -188,8 +194,8 @@ Qed.
 
 (* whatever the outcome, a tag assignment whose version is not being removed is as before;
    in particular no assignment appears *)
-Lemma destroy_tag_frame c a0 : forall ps removed st r st',
-  destroy c a0 ps removed st = (r, st') -> NoDup ps -> all_real ps ->
+Lemma destroy_tag_frame keep c a0 : forall ps removed st r st',
+  destroy keep c a0 ps removed st = (r, st') -> NoDup ps -> all_real ps ->
   forall s n t f', (forall v, a_tag (rdb st) s n t f' = Some v -> ~ gone c (rdb st) ps s n v f') ->
   a_tag (rdb st') s n t f' = a_tag (rdb st) s n t f'.
 Proof.
@@ -202,7 +208,7 @@ Proof.
       destruct (tag_points (rdb st) s1 n1 (rc_flavor c) v1 (s, n, t, f')) eqn:E; [|rewrite andb_false_r; reflexivity].
       apply tag_points_true in E as [-> [-> [-> E]]]. exfalso. apply (NG v1 E).
       split; [reflexivity|]. split; [left; reflexivity|]. apply (find_home _ _ _ _ _ _ F). }
-    destruct (destroy_inv _ _ _ _ _ _ _ _ _ H) as [[_ [_ ->]]|[s1 [rr [F [[e [_ [_ ->]]]|[removed' [fs' [_ Hrec]]]]]]]]; [reflexivity| |].
+    destruct (destroy_inv _ _ _ _ _ _ _ _ _ _ H) as [[_ [_ ->]]|[s1 [rr [F [[e [_ [_ ->]]]|[removed' [fs' [_ Hrec]]]]]]]]; [reflexivity| |].
     + cbn [rdb]. apply (Step s1 rr F).
     + rewrite (IH _ _ _ _ Hrec ND' (all_real_tail _ _ AR) s n t f').
       * cbn [rdb]. apply (Step s1 rr F).
@@ -210,15 +216,15 @@ Proof.
 Qed.
 
 (* when the run completes, the tags that named a removed declaration are gone *)
-Lemma destroy_tag_gone c a0 : forall ps removed st st',
-  destroy c a0 ps removed st = (Ok tt, st') -> NoDup ps -> all_real ps ->
+Lemma destroy_tag_gone keep c a0 : forall ps removed st st',
+  destroy keep c a0 ps removed st = (Ok tt, st') -> NoDup ps -> all_real ps ->
   forall s n t f' v, a_tag (rdb st) s n t f' = Some v -> gone c (rdb st) ps s n v f' ->
   a_tag (rdb st') s n t f' = None.
 Proof.
   induction ps as [|p ps IH]; intros removed st st' H ND AR s n t f' v E G.
   - destruct G as [_ [[] _]].
   - destruct (AR p (or_introl eq_refl)) as [n1 [v1 ->]]. inversion ND as [|? ? Hnotin ND']. subst.
-    destruct (destroy_inv _ _ _ _ _ _ _ _ _ H) as [[_ [E' _]]|[s1 [rr [F [[e [_ [E' _]]]|[removed' [fs' [_ Hrec]]]]]]]];
+    destruct (destroy_inv _ _ _ _ _ _ _ _ _ _ H) as [[_ [E' _]]|[s1 [rr [F [[e [_ [E' _]]]|[removed' [fs' [_ Hrec]]]]]]]];
       [discriminate|discriminate|].
     set (a1 := aapply (ADelDecl s1 n1 v1 (rc_flavor c)) (rdb st)) in *.
     destruct (a_tag a1 s n t f') as [v'|] eqn:E1.
@@ -236,25 +242,25 @@ Proof.
       apply (IH _ _ _ Hrec ND' (all_real_tail _ _ AR) s n t f' v).
       * cbn [rdb]. fold a1. rewrite E1'. exact E.
       * cbn [rdb]. apply gone_before; assumption.
-    + rewrite (destroy_tag_frame _ _ _ _ _ _ _ Hrec ND' (all_real_tail _ _ AR) s n t f'); cbn [rdb]; fold a1; [exact E1|].
+    + rewrite (destroy_tag_frame _ _ _ _ _ _ _ _ Hrec ND' (all_real_tail _ _ AR) s n t f'); cbn [rdb]; fold a1; [exact E1|].
       intros v0 E0. rewrite E1 in E0. discriminate.
 Qed.
 
 (* ---------------------------------------------------------------- paths *)
 
-Lemma destroy_fs_sub c a0 : forall ps removed st r st',
-  destroy c a0 ps removed st = (r, st') -> all_real ps -> forall x, In x (rfs st') -> In x (rfs st).
+Lemma destroy_fs_sub keep c a0 : forall ps removed st r st',
+  destroy keep c a0 ps removed st = (r, st') -> all_real ps -> forall x, In x (rfs st') -> In x (rfs st).
 Proof.
   induction ps as [|p ps IH]; intros removed st r st' H AR x I.
   - cbn in H. inversion H. subst. exact I.
   - destruct (AR p (or_introl eq_refl)) as [n1 [v1 ->]].
-    destruct (destroy_inv _ _ _ _ _ _ _ _ _ H) as [[_ [_ ->]]|[s1 [rr [F [[e [_ [_ ->]]]|[removed' [fs' [D Hrec]]]]]]]]; [exact I|exact I|].
-    apply (dir_step_fs_sub _ _ _ _ _ _ _ _ D). apply (IH _ _ _ _ Hrec (all_real_tail _ _ AR) x I).
+    destruct (destroy_inv _ _ _ _ _ _ _ _ _ _ H) as [[_ [_ ->]]|[s1 [rr [F [[e [_ [_ ->]]]|[removed' [fs' [D Hrec]]]]]]]]; [exact I|exact I|].
+    apply (dir_step_fs_sub _ _ _ _ _ _ _ _ _ _ D). apply (IH _ _ _ _ Hrec (all_real_tail _ _ AR) x I).
 Qed.
 
 (* whatever the outcome, a path that lies in none of the directories of the products being removed stays *)
-Lemma destroy_fs_keep c a0 : forall ps removed st r st',
-  destroy c a0 ps removed st = (r, st') -> all_real ps ->
+Lemma destroy_fs_keep keep c a0 : forall ps removed st r st',
+  destroy keep c a0 ps removed st = (r, st') -> all_real ps ->
   forall x, In x (rfs st) ->
   (forall p dir, In p ps -> product_dir c a0 p = Some dir -> placeholder dir = false -> under dir x = false) ->
   In x (rfs st').
@@ -262,27 +268,27 @@ Proof.
   induction ps as [|p ps IH]; intros removed st r st' H AR x I K.
   - cbn in H. inversion H. subst. exact I.
   - destruct (AR p (or_introl eq_refl)) as [n1 [v1 ->]].
-    destruct (destroy_inv _ _ _ _ _ _ _ _ _ H) as [[_ [_ ->]]|[s1 [rr [F [[e [_ [_ ->]]]|[removed' [fs' [D Hrec]]]]]]]]; [exact I|exact I|].
+    destruct (destroy_inv _ _ _ _ _ _ _ _ _ _ H) as [[_ [_ ->]]|[s1 [rr [F [[e [_ [_ ->]]]|[removed' [fs' [D Hrec]]]]]]]]; [exact I|exact I|].
     apply (IH _ _ _ _ Hrec (all_real_tail _ _ AR) x).
-    + cbn [rfs]. apply (dir_step_fs_keep _ _ _ _ _ _ _ _ D I). intros dir P Ph. apply (K _ dir (or_introl eq_refl) P Ph).
+    + cbn [rfs]. apply (dir_step_fs_keep _ _ _ _ _ _ _ _ _ _ D I). intros dir P Ph. apply (K _ dir (or_introl eq_refl) P Ph).
     + intros p dir Ip. apply K. right. exact Ip.
 Qed.
 
 (* when the run completes, nothing is left in the directories of the removed products *)
 Lemma destroy_fs_gone c a0 : forall ps removed st st',
-  destroy c a0 ps removed st = (Ok tt, st') -> all_real ps -> fs_inv removed (rfs st) ->
+  destroy false c a0 ps removed st = (Ok tt, st') -> all_real ps -> fs_inv removed (rfs st) ->
   forall p dir x, In p ps -> product_dir c a0 p = Some dir -> placeholder dir = false -> under dir x = true ->
   ~ In x (rfs st').
 Proof.
   induction ps as [|p ps IH]; intros removed st st' H AR Inv q dir x Iq P Ph U.
   - destruct Iq.
   - destruct (AR p (or_introl eq_refl)) as [n1 [v1 ->]].
-    destruct (destroy_inv _ _ _ _ _ _ _ _ _ H) as [[_ [E' _]]|[s1 [rr [F [[e [_ [E' _]]]|[removed' [fs' [D Hrec]]]]]]]];
+    destruct (destroy_inv _ _ _ _ _ _ _ _ _ _ H) as [[_ [E' _]]|[s1 [rr [F [[e [_ [E' _]]]|[removed' [fs' [D Hrec]]]]]]]];
       [discriminate|discriminate|].
-    destruct (dir_step_inv _ _ _ _ _ _ _ Inv D) as [Inv' Hd].
+    destruct (dir_step_inv _ _ _ _ _ _ _ _ _ Inv D) as [Inv' Hd].
     destruct Iq as [<-|Iq].
-    + intro J. apply (destroy_fs_sub _ _ _ _ _ _ _ Hrec (all_real_tail _ _ AR)) in J. cbn [rfs] in J.
-      apply (Hd dir P Ph x U J).
+    + intro J. apply (destroy_fs_sub _ _ _ _ _ _ _ _ Hrec (all_real_tail _ _ AR)) in J. cbn [rfs] in J.
+      apply (Hd eq_refl dir P Ph x U J).
     + apply (IH _ _ _ Hrec (all_real_tail _ _ AR) Inv' q dir x Iq P Ph U).
 Qed.
 
@@ -290,14 +296,14 @@ Qed.
 
 (* the run completes when every product is (still) declared and every real directory is there,
    the directories of the products being removed not lying strictly inside one another *)
-Lemma destroy_total c a0 : forall ps removed st,
+Lemma destroy_total keep c a0 : forall ps removed st,
   NoDup ps -> all_real ps ->
   (forall n v, In (n, Some v, true) ps -> find_exact (rdb st) (apath (rdb st)) n v (rc_flavor c) <> None) ->
   (forall p dir, In p ps -> product_dir c a0 p = Some dir -> placeholder dir = false ->
                  In (Some dir) removed \/ In dir (rfs st)) ->
   (forall p q dp dq, In p ps -> In q ps -> product_dir c a0 p = Some dp -> product_dir c a0 q = Some dq ->
                      placeholder dp = false -> placeholder dq = false -> under dp dq = true -> dp = dq) ->
-  exists st', destroy c a0 ps removed st = (Ok tt, st').
+  exists st', destroy keep c a0 ps removed st = (Ok tt, st').
 Proof.
   induction ps as [|p ps IH]; intros removed st ND AR Hd Hdir Hnest.
   - exists st. reflexivity.
@@ -305,7 +311,7 @@ Proof.
     cbn [destroy]. unfold nname, nver. cbn [fst snd]. rewrite undeclare_some.
     destruct (find_exact (rdb st) (apath (rdb st)) n1 v1 (rc_flavor c)) as [[s1 rr]|] eqn:F;
       [|exfalso; apply (Hd n1 v1 (or_introl eq_refl) F)].
-    destruct (dir_step_total c a0 (n1, Some v1, true) removed (rfs st)) as [removed' [fs' D]].
+    destruct (dir_step_total keep c a0 (aapply (ADelDecl s1 n1 v1 (rc_flavor c)) (rdb st)) (n1, Some v1, true) removed (rfs st)) as [removed' [fs' D]].
     { intros dir P Ph. apply (Hdir _ dir (or_introl eq_refl) P Ph). }
     rewrite D. apply IH; [exact ND'|apply (all_real_tail _ _ AR)| | |].
     + intros n v I. cbn [rdb]. rewrite apath_aapply.
@@ -315,10 +321,77 @@ Proof.
       rewrite (dkey_neq_nv _ _ _ _ _ _ _ _ N), andb_false_r. reflexivity.
     + intros q dq Iq Pq Phq. cbn [rfs].
       destruct (Hdir q dq (or_intror Iq) Pq Phq) as [I|I].
-      * left. apply (dir_step_removed_mono _ _ _ _ _ _ _ _ D I).
-      * destruct (dir_step_cases _ _ _ _ _ _ _ D) as [[-> [-> _]]|[[-> [-> _]]|[dir [P [Ph [_ [_ [-> ->]]]]]]]]; auto.
+      * left. apply (dir_step_removed_mono _ _ _ _ _ _ _ _ _ _ D I).
+      * destruct (dir_step_cases _ _ _ _ _ _ _ _ _ D) as [[-> [-> _]]|[[-> [-> _]]|[dir [P [Ph [_ [_ [-> ->]]]]]]]]; auto.
         destruct (under dir dq) eqn:U.
         -- left. left. f_equal. apply (Hnest (n1, Some v1, true) q dir dq); auto. left. reflexivity. right. exact Iq.
         -- right. apply rmtree_In. auto.
     + intros p q dp dq Ip Iq. apply Hnest; right; assumption.
+Qed.
+
+(* ---------------------------------------------------------------- directories that are still lived in *)
+
+Lemma in_use_true c a dir :
+  in_use c a dir = true <->
+  exists s n v f r, In s (apath a) /\ In f (fallbacks (rc_flavor c)) /\ a_decl a s n v f = Some r /\
+                    placeholder (fst r) = false /\ under dir (fst r) = true.
+Proof.
+  unfold in_use. rewrite existsb_exists. split.
+  - intros [[[[[s n] v] f] r0] [I H]]. cbn [fst] in H. apply andb_true_iff in H as [H H3]. apply andb_true_iff in H as [H1 H2].
+    destruct (a_decl a s n v f) as [r|] eqn:E; [|discriminate]. apply andb_true_iff in H3 as [H3 H4].
+    apply negb_true_iff in H3. apply mem_str_In in H1, H2. exists s, n, v, f, r. auto.
+  - intros [s [n [v [f [r [Is [If [E [Ph U]]]]]]]]]. exists ((s, n, v, f), r). split.
+    + unfold a_decl in E. apply (glookup_In dkey_eqb dkey_eqb_eq) in E. exact E.
+    + cbn [fst]. rewrite E, Ph, U. rewrite (proj2 (mem_str_In _ _) Is), (proj2 (mem_str_In _ _) If). reflexivity.
+Qed.
+
+Lemma dir_step_in_use c a0 a1 p removed fs removed' fs' dir :
+  dir_step true c a0 a1 p removed fs = Ok (removed', fs') ->
+  product_dir c a0 p = Some dir -> placeholder dir = false -> in_use c a1 dir = true -> fs' = fs.
+Proof.
+  unfold dir_step. intros H P Ph U. rewrite P in H. destruct (mem_odir (Some dir) removed); [inversion H; reflexivity|].
+  rewrite Ph, U in H. cbn [andb] in H. inversion H. reflexivity.
+Qed.
+
+(* a declaration that is there, that Eups._findDeclarations sees, and that is not one of those being removed,
+   protects its directory and every directory that holds it *)
+Definition protects (c : rconf) (a : adb) (ps : list node) (dir : str) : Prop :=
+  exists s n v f r, In s (apath a) /\ In f (fallbacks (rc_flavor c)) /\ a_decl a s n v f = Some r /\
+                    placeholder (fst r) = false /\ under dir (fst r) = true /\ ~ gone c a ps s n v f.
+
+(* with the fix: a path stays when every directory of a removed product that holds it is protected *)
+Lemma destroy_fs_protected c a0 : forall ps removed st r st',
+  destroy true c a0 ps removed st = (r, st') -> NoDup ps -> all_real ps ->
+  forall x, In x (rfs st) ->
+  (forall p dir, In p ps -> product_dir c a0 p = Some dir -> placeholder dir = false -> under dir x = true ->
+                 protects c (rdb st) ps dir) ->
+  In x (rfs st').
+Proof.
+  induction ps as [|p ps IH]; intros removed st r st' H ND AR x I K.
+  - cbn in H. inversion H. subst. exact I.
+  - destruct (AR p (or_introl eq_refl)) as [n1 [v1 ->]]. inversion ND as [|? ? Hnotin ND']. subst.
+    destruct (destroy_inv _ _ _ _ _ _ _ _ _ _ H) as [[_ [_ ->]]|[s1 [rr [F [[e [_ [_ ->]]]|[removed' [fs' [D Hrec]]]]]]]]; [exact I|exact I|].
+    set (a' := aapply (ADelDecl s1 n1 v1 (rc_flavor c)) (rdb st)) in *.
+    (* what protects a directory before the step protects it afterwards *)
+    assert (Keep : forall dir, protects c (rdb st) ((n1, Some v1, true) :: ps) dir -> protects c a' ps dir).
+    { intros dir [s [n [v [f [r0 [Is [If [E [Ph [U NG]]]]]]]]]]. exists s, n, v, f, r0.
+      split; [unfold a'; rewrite apath_aapply; exact Is|]. split; [exact If|]. split.
+      - unfold a'. rewrite a_decl_aapply.
+        destruct (dkey_eqb (s, n, v, f) (s1, n1, v1, rc_flavor c)) eqn:Ek; [|rewrite andb_false_r; exact E].
+        apply dkey_eqb_eq in Ek. inversion Ek. subst. exfalso. apply NG. split; [reflexivity|]. split; [left; reflexivity|].
+        apply (find_home _ _ _ _ _ _ F).
+      - split; [exact Ph|]. split; [exact U|]. intro G. apply NG. apply (gone_after _ _ _ _ _ _ _ _ _ _ Hnotin G). }
+    apply (IH _ _ _ _ Hrec ND' (all_real_tail _ _ AR) x).
+    + cbn [rfs].
+      destruct (product_dir c a0 (n1, Some v1, true)) as [dir|] eqn:P.
+      * destruct (placeholder dir) eqn:Ph.
+        -- apply (dir_step_fs_keep _ _ _ _ _ _ _ _ _ _ D I). intros dir' P' Ph'. rewrite P in P'. inversion P'. subst. congruence.
+        -- destruct (under dir x) eqn:U.
+           ++ assert (Pr : protects c a' ps dir) by (apply Keep, (K _ dir (or_introl eq_refl) P Ph U)).
+              destruct Pr as [s [n [v [f [r0 [Is [If [E [Ph0 [U0 _]]]]]]]]]].
+              assert (IU : in_use c a' dir = true) by (apply in_use_true; exists s, n, v, f, r0; auto).
+              rewrite (dir_step_in_use _ _ _ _ _ _ _ _ _ D P Ph IU). exact I.
+           ++ apply (dir_step_fs_keep _ _ _ _ _ _ _ _ _ _ D I). intros dir' P' _. rewrite P in P'. inversion P'. subst. exact U.
+      * apply (dir_step_fs_keep _ _ _ _ _ _ _ _ _ _ D I). intros dir' P'. rewrite P in P'. discriminate.
+    + intros q dir Iq Pq Phq Uq. cbn [rdb]. apply Keep. apply (K q dir (or_intror Iq) Pq Phq Uq).
 Qed.
